@@ -90,3 +90,14 @@ Theorem C10_exponential_decay_is_a_decay : decay_exp 0 = 1%Qc /\ forall a b, dec
 Proof. exact (conj decay_exp_zero decay_exp_add). Qed.
 Print Assumptions C10_formulas_are_the_source's.
 Print Assumptions C10_exponential_decay_is_a_decay.
+
+(* Tie B (pins): the functions this property's models transcribe read, statement by statement, as they did when the models
+   were written against them; Gen/SourcesGen.v is regenerated from /repo on every run (translator/pins.py). *)
+From GL Require Import Gen.SourcesGen Model.Sources Proofs.PinC10.
+Theorem C10_modelled_functions_are_the_source's :
+  gen_src_ema_adjusted = src_ema_adjusted /\
+  gen_src_ema_time_weighted = src_ema_time_weighted /\
+  gen_src_ema_grouped = src_ema_grouped /\
+  gen_src_ema_grouped_timed = src_ema_grouped_timed.
+Proof. exact (conj pin_ema_adjusted (conj pin_ema_time_weighted (conj pin_ema_grouped pin_ema_grouped_timed))). Qed.
+Print Assumptions C10_modelled_functions_are_the_source's.
